@@ -70,6 +70,8 @@ def r_stmt(s, ind=""):
         o = s["o"]
         base = r_expr(o) if o["k"] in ("obj", "rd", "lv") else "(" + r_expr(o) + ")"
         return "%s%s.%s(%s);" % (ind, base, s["m"], ", ".join(r_expr(a) for a in s["args"]))
+    if k == "letc":
+        return "%slet %s = %s.%s(%s);" % (ind, s["n"], r_expr(s["o"]), s["m"], ", ".join(r_expr(a) for a in s["args"]))
     if k == "log":
         return "%sconsole.%s(%s);" % (ind, s["lv"], ", ".join(r_expr(a) for a in s["args"]))
     if k == "ret":
